@@ -116,9 +116,10 @@ def epoch_work(job):
     n, suffix, zn, negative = job
     s = ("-" if negative else "") + str(n) + suffix
     us = int(suffix.ljust(6, "0")) if suffix else 0
-    secs = -n if negative else n
-    want = (DT(1970, 1, 1) + datetime.timedelta(seconds=secs)).replace(tzinfo=pytz.utc).astimezone(
-        pytz.timezone(zn)).replace(tzinfo=None, microsecond=us)
+    # the written number with its sign: seconds.fraction
+    total_us = (n * 1000000 + us) * (-1 if negative else 1)
+    want = (DT(1970, 1, 1) + datetime.timedelta(microseconds=total_us)).replace(
+        tzinfo=pytz.utc).astimezone(pytz.timezone(zn)).replace(tzinfo=None)
     st = {"TIMEZONE": zn}
     if negative:
         st["PARSERS"] = ["negative-timestamp", "timestamp", "absolute-time"]
